@@ -268,7 +268,10 @@ def check_mapper(name, rec, g, info) -> tuple[Failure | None, dict]:
         return Failure("collision-hidden", f"{name}: graph contains "
                        "structurally equal distinct nodes but no collision "
                        "was reported", name), stats
-    if not dup:
+    # (one and the same object mapped twice is never right for a cached
+    # mapper, duplicates in the graph or not; with duplicates at the top level
+    # the collision handling above has already returned)
+    if not dup_top:
         multi = [nodes_all[i] for i, c in counts.items()
                  if c > 1 and i in nodes_all]
         if multi:
